@@ -140,11 +140,15 @@ class FileResponseMixin:
         }
         if download_name or content_type == "application/octet-stream":
             download_name = download_name or os.path.basename(filepath)
-            content_disposition = (
-                "attachment; "
-                f'filename="{download_name}"; '
-                f"filename*=utf-8''{quote(download_name)}"
-            )
+            quoted_name = quote(download_name)
+            content_disposition = f"attachment; filename*=utf-8''{quoted_name}"
+            if quoted_name == download_name:
+                # only a plain name may also go into the quoted-string form
+                content_disposition = (
+                    "attachment; "
+                    f'filename="{download_name}"; '
+                    f"filename*=utf-8''{quoted_name}"
+                )
             headers["content-disposition"] = content_disposition
 
         return headers
